@@ -171,6 +171,7 @@ type crCfg struct {
 	vmax    int
 	keep    int
 	l0close bool
+	lvls    bool // tiny level targets: the tables spread over several levels (C29 drop sessions)
 }
 
 type crSess struct {
@@ -197,6 +198,7 @@ type crSess struct {
 	dropAll   bool
 	dropPfx   [][]byte
 	judgeStep int // step of the event whose image is being judged
+	gcMoved   bool // a value-log GC of this session has written entries back
 }
 
 func (s *crSess) opts(dir string) badger.Options {
@@ -209,6 +211,9 @@ func (s *crSess) opts(dir string) badger.Options {
 		WithValueLogMaxEntries(uint32(s.cfg.vmax)).WithSyncWrites(s.cfg.sync).
 		WithCompression(options.None).WithBlockCacheSize(0).WithIndexCacheSize(0).
 		WithDetectConflicts(false).WithNumMemtables(5)
+	if s.cfg.lvls {
+		o = o.WithBaseTableSize(2 << 10).WithBaseLevelSize(4 << 10)
+	}
 	return o
 }
 
@@ -749,6 +754,13 @@ func (s *crSess) isDropped(k string) bool {
 // before it has been acknowledged; the step's events are judged by judgeDrop.
 func (s *crSess) drop(words []string, emit func(string, string), fail func(string)) {
 	s.barrier()
+	nl := 0
+	for _, l := range badger.VerifLevels(s.db) {
+		if len(l) > 0 {
+			nl++
+		}
+	}
+	s.st.Inc(fmt.Sprintf("drop:nonempty-levels=%d,gc=%v", nl, s.gcMoved))
 	s.dropAt = s.steps + 1
 	s.dropAll = false
 	s.dropPfx = nil
@@ -882,7 +894,13 @@ func (s *crSess) dropJudgeDB(db *badger.DB, after bool, sub string, probeCommit 
 				if old {
 					// finding F32: the newest version goes first (WAL / memtable, then L0, then the
 					// lower levels), so a crash in between shows an older version again
-					fails = append(fails, fmt.Sprintf("[F32:drop-crash-stale-value] [C29-crash-%sstale-value] dropped key %s reads %s, an older value of it; right before the drop it read found:%v %s", sub, hx([]byte(k)), hx(val), !w.del, hx(w.val)))
+					// known (F32, what is left of it): a drop after a value-log GC whose write-back
+					// put an OLDER version of the key above its newest version (memtable / L0)
+					tag := ""
+					if s.gcMoved {
+						tag = "[F32:drop-after-gc-stale-value] "
+					}
+					fails = append(fails, fmt.Sprintf("%s[C29-crash-%sstale-value] dropped key %s reads %s, an older value of it; right before the drop it read found:%v %s", tag, sub, hx([]byte(k)), hx(val), !w.del, hx(w.val)))
 				} else {
 					fail("foreign-value", fmt.Sprintf("dropped key %s reads %s, a value it never had", hx([]byte(k)), hx(val)))
 				}
@@ -1024,12 +1042,15 @@ func execCrash(intents []string, st *Stats) (final, outs, oracle []string) {
 			kv := kvWords(w[1:])
 			*s = crSess{st: st, blobs: map[[20]byte][]byte{}, vlogOf: map[string]int{}}
 			s.cfg = crCfg{sync: kvInt(kv, "sync", 1) != 0, memsz: kvInt(kv, "memsz", 8192), thr: kvInt(kv, "thr", 32),
-				vmax: kvInt(kv, "vmax", 1000), keep: kvInt(kv, "keep", 1000), l0close: kvInt(kv, "l0close", 0) != 0}
+				vmax: kvInt(kv, "vmax", 1000), keep: kvInt(kv, "keep", 1000), l0close: kvInt(kv, "l0close", 0) != 0, lvls: kvInt(kv, "lvls", 0) != 0}
 			s.dir = scratchDir()
 			s.initial = crImage{}
 			s.startRecording()
 			err := open()
 			op := fmt.Sprintf("reset sync=%d memsz=%d thr=%d vmax=%d keep=%d l0close=%d", b2i(s.cfg.sync), s.cfg.memsz, s.cfg.thr, s.cfg.vmax, s.cfg.keep, b2i(s.cfg.l0close))
+			if s.cfg.lvls {
+				op += " lvls=1"
+			}
 			if err != nil {
 				emit(op, "err:open:"+err.Error())
 				s.closeAll()
@@ -1402,6 +1423,10 @@ func genCrashSession(rng *rand.Rand, st *Stats, idx int) []string {
 	}
 	var ops []string
 	ops = append(ops, fmt.Sprintf("reset sync=%d memsz=%d thr=%d vmax=%d keep=%d l0close=%d", b2i(sync), memsz, thr, vmax, keep, 0))
+	lvls := params["mode"] == "drop" && idx%2 == 1
+	if lvls {
+		ops[len(ops)-1] += " lvls=1"
+	}
 	st.Inc(fmt.Sprintf("session:sync=%v,memsz=%d", sync, memsz))
 	nkeys := 3 + rng.Intn(6)
 	var keys [][]byte
@@ -1544,6 +1569,11 @@ func genCrashSession(rng *rand.Rand, st *Stats, idx int) []string {
 			}
 		case r < 80:
 			ops = append(ops, "flush")
+			if lvls {
+				for j := 0; j < rng.Intn(3); j++ {
+					ops = append(ops, fmt.Sprintf("compact pick=%d", rng.Intn(4)))
+				}
+			}
 		case r < 84 && vmax <= 5 && params["mode"] != "power":
 			// value-log GC of the oldest file: old versions are written back at the WAL tail
 			ops = append(ops, "gc")
@@ -2227,7 +2257,7 @@ func crashChild(intents []string) {
 		case "reset":
 			kv := kvWords(w[1:])
 			s.cfg = crCfg{sync: kvInt(kv, "sync", 1) != 0, memsz: kvInt(kv, "memsz", 8192), thr: kvInt(kv, "thr", 32),
-				vmax: kvInt(kv, "vmax", 1000), keep: kvInt(kv, "keep", 1000), l0close: kvInt(kv, "l0close", 0) != 0}
+				vmax: kvInt(kv, "vmax", 1000), keep: kvInt(kv, "keep", 1000), l0close: kvInt(kv, "l0close", 0) != 0, lvls: kvInt(kv, "lvls", 0) != 0}
 			db, err = badger.Open(s.opts(dir))
 			if err != nil {
 				os.Exit(5)
@@ -2427,6 +2457,9 @@ func (s *crSess) gc(emit func(string, string), fail func(string)) {
 	mv := strings.Join(moved, "+")
 	if mv == "" {
 		mv = "-"
+	}
+	if len(moved) > 0 {
+		s.gcMoved = true
 	}
 	emit(fmt.Sprintf("gc fid=%d batches=%s rots=%s moved=%s", fid, js(batches), js(rots), mv), s.stepTokens(s.steps, false))
 	s.st.Inc(fmt.Sprintf("gc:moved=%s", sizeBucket(len(moved))))
